@@ -4,6 +4,7 @@ import OpenFecVerif.Props.C04
 import OpenFecVerif.Proofs.RfcWF
 import OpenFecVerif.Proofs.MLComplete
 import OpenFecVerif.Proofs.SessWF
+import OpenFecVerif.Gen.Macros
 /-!
 # C05 — the LDPC-Staircase code depends only on (k, n, N1, seed)
 
@@ -94,3 +95,43 @@ theorem C05_configured_session {σ : Type} (IO : Api.SymIO σ) (g : Nat) (s : Ap
     s'.H.length = p.r ∧ MLComplete.WFH s'.H (p.k + p.r) ∧ (∀ row ∈ s'.H, row.length ≠ 1) ∧ Api.stairCheck p.k s'.H = true ∧
     s'.mlConsumed = s.mlConsumed ∧ ∃ it, s'.it = some it ∧ it.k = p.k :=
   SessWF.configured_structure IO (C05_goodRand CSem.rne53 C19_executable_rounding_in_standard_model) g s p g' s' hc h
+
+
+/-- the column mapping macros of of_symbol.h (translated each run): repair symbols occupy matrix columns 0..r−1 and source symbols
+columns r..n−1; the two macros are inverse bijections between ESIs and columns of [0, n) -/
+theorem C05_column_mapping (k r : Nat) (hn : k + r < 2147483648) :
+    (∀ esi, esi < k + r → (Gen.vm_symbol_col k r esi).2.2 = (if esi < k then ((esi + r : Nat) : Int) else ((esi - k : Nat) : Int))) ∧
+    (∀ col, col < k + r → (Gen.vm_symbol_esi r k col).2.2 = (if col < r then ((col + k : Nat) : Int) else ((col - r : Nat) : Int))) ∧
+    (∀ esi, esi < k + r → (Gen.vm_symbol_esi r k (Int.toNat (Gen.vm_symbol_col k r esi).2.2)).2.2 = (esi : Int)) := by
+  have hcol : ∀ esi, esi < k + r → (Gen.vm_symbol_col k r esi).2.2 = (if esi < k then ((esi + r : Nat) : Int) else ((esi - k : Nat) : Int)) := by
+    intro esi he
+    unfold Gen.vm_symbol_col CSem.toSigned
+    simp only
+    split
+    · rename_i h
+      have : (esi + r) % 4294967296 % 4294967296 = esi + r := by omega
+      rw [this, if_pos (by simp; omega)]
+    · rename_i h
+      have : (esi + 4294967296 - k) % 4294967296 % 4294967296 = esi - k := by omega
+      rw [this, if_pos (by simp; omega)]
+  have hesi : ∀ col, col < k + r → (Gen.vm_symbol_esi r k col).2.2 = (if col < r then ((col + k : Nat) : Int) else ((col - r : Nat) : Int)) := by
+    intro col he
+    unfold Gen.vm_symbol_esi CSem.toSigned
+    simp only
+    split
+    · rename_i h
+      have : (col + k) % 4294967296 % 4294967296 = col + k := by omega
+      rw [this, if_pos (by simp; omega)]
+    · rename_i h
+      have : (col + 4294967296 - r) % 4294967296 % 4294967296 = col - r := by omega
+      rw [this, if_pos (by simp; omega)]
+  refine ⟨hcol, hesi, ?_⟩
+  intro esi he
+  rw [hcol esi he]
+  split
+  · rename_i h
+    rw [Int.toNat_natCast, hesi _ (by omega), if_neg (by omega)]
+    congr 1; omega
+  · rename_i h
+    rw [Int.toNat_natCast, hesi _ (by omega), if_pos (by omega)]
+    congr 1; omega
